@@ -2,7 +2,8 @@
 //
 //   clockdrv sc          scripts on stdin against a SystemClock with injected clockMillis():
 //        S <id> <base> <phase>      new clock; counter starts at base + phase (base = multiple of 65536)
-//        A <d> | G | T <v|inv>      advance counter / getNow() / setNow(v)
+//        A <d> | G | K | T <v|inv>  advance counter / getNow() / keepAlive() / setNow(v)
+//   clockdrv scloop      the same scripts on a SystemClockLoop without reference clock, K = loop()
 //        E                          end: prints {"id":..,"steps":[[epoch,prev,init,last,bw,bv,reading],..]}
 //   clockdrv scl         scripts against a SystemClockLoop:
 //        S <id> <sync> <initial> <timeout> <mode distinct|same|none> <base> [<preset|inv>]
@@ -54,6 +55,7 @@ struct RecClock : public Clock {
 struct SC : public SystemClock {
   VERIF_UL fake = 0;
   SC(Clock* r, Clock* b) : SystemClock(r, b) {}
+  void poll() { keepAlive(); }
   VERIF_UL clockMillis() const override { return fake; }
   long epoch() const { return mEpochSeconds; }
   long prev() const { return mPrevMillis; }
@@ -63,6 +65,8 @@ struct SC : public SystemClock {
 struct SCL : public SystemClockLoop {
   VERIF_UL fake = 0;
   SCL(Clock* r, Clock* b, uint16_t sync, uint16_t initial, uint16_t timeout) : SystemClockLoop(r, b, sync, initial, timeout) {}
+  SCL(Clock* r, Clock* b) : SystemClockLoop(r, b) {}
+  void poll() { loop(); }      // the documented maintenance call
   VERIF_UL clockMillis() const override { return fake; }
   long epoch() const { return mEpochSeconds; }
   long prev() const { return mPrevMillis; }
@@ -72,16 +76,17 @@ struct SCL : public SystemClockLoop {
 static std::string num(long v) { if (v == INV) return "\"inv\""; char b[32]; snprintf(b, sizeof b, "%ld", v); return b; }
 static long parse_v(const char* s) { return !strcmp(s, "inv") ? INV : atol(s); }
 
+template <typename C>
 static int run_sc() {
   char line[256];
-  RecClock* backup = nullptr; SC* c = nullptr;
+  RecClock* backup = nullptr; C* c = nullptr;
   std::string out;
   while (fgets(line, sizeof line, stdin)) {
     char a[64], b[64], d[64];
     if (line[0] == 'S') {
       sscanf(line, "S %63s %63s %63s", a, b, d);
       delete c; delete backup;
-      backup = new RecClock(); c = new SC(nullptr, backup);
+      backup = new RecClock(); c = new C(nullptr, backup);
       c->fake = strtoul(b, nullptr, 10) + strtoul(d, nullptr, 10);
       out = std::string("{\"id\":\"") + a + "\",\"steps\":[";
     } else if (line[0] == 'E') {
@@ -91,6 +96,7 @@ static int run_sc() {
       long reading = INV; bool isget = false;
       if (line[0] == 'A') { sscanf(line, "A %63s", a); c->fake += strtoul(a, nullptr, 10); }
       else if (line[0] == 'G') { reading = c->getNow(); isget = true; }
+      else if (line[0] == 'K') { c->poll(); }
       else if (line[0] == 'T') { sscanf(line, "T %63s", a); c->setNow((acetime_t) parse_v(a)); }
       out += "[" + num(c->epoch()) + "," + num(c->prev()) + "," + (c->isInit() ? "1" : "0") + "," + num(c->last()) + ","
           + num(backup->sets) + "," + num(backup->lastSet) + "," + (isget ? num(reading) : std::string("null")) + "],";
@@ -164,7 +170,8 @@ static int run_scl() {
 int main(int argc, char** argv) {
   if (argc < 2) return 2;
   std::string cmd = argv[1];
-  if (cmd == "sc") return run_sc();
+  if (cmd == "sc") return run_sc<SC>();
+  if (cmd == "scloop") return run_sc<SCL>();
   if (cmd == "scl") return run_scl();
   if (cmd == "sweep" && argc >= 5) {
     long p0 = atol(argv[2]), p1 = atol(argv[3]);
